@@ -129,8 +129,15 @@ def judge_record(ctx, prop, r):
     try:
         if 'relax' in c and 'maxsup' in c and int(c['relax']) > int(c['maxsup']):
             out[:] = [(k + '|cfg:relax>maxsuper', msg) for k, msg in out]
+        elif c.get('kind') in ('emptycol', 'emptyrow', 'hall', 'hallblock'):
+            # elimination reaches a column that has no candidate row at all (known finding)
+            out[:] = [(k + '|cfg:no-candidate-row', msg) for k, msg in out]
         elif c.get('dyn') and int(c.get('np', 1)) > 1:
             out[:] = [(k + '|cfg:dynamic-snode-store,np>1', msg) for k, msg in out]
+        elif c.get('cmd') == 'gssvx' and m.get('prec') in ('c', 'z') and c.get('stype') == 'nr':
+            # A**H with row-wise complex storage would need conj(A^T) = a conjugate-no-transpose solve
+            t1 = int(c.get('trans', 0)) == 2; t2 = int(c.get('trans2', c.get('trans', 0))) == 2
+            out[:] = [((k + '|cfg:complex,row-wise,CONJ') if (k.startswith(('C07|', 'C13|')) and (t2 if '|factored' in k else t1)) else k, msg) for k, msg in out]
     except ValueError:
         pass
     if False:
@@ -449,3 +456,248 @@ PROPS['C09'] = dict(gen=gen_c09, relevant=('C09|',), counters=EV_COUNTERS, nontr
                     'value extents (length, stride, disjointness), U rows above the supernode, nnz fields, index order = dependency order; the event log counts how often '
                     'supernode numbers and subscript storage were handed out in different orders',
                     floors={'ns_mismatch': 1, 'pipe_takes': 50})
+
+# ----------------------------------------------------------------------------
+# expert driver workloads (C06 C07 C11 C12 C13)
+# ----------------------------------------------------------------------------
+def cond_cap(prec, frac=1.0):
+    # largest condition number (as a power of ten) for which the statement's premises hold
+    return {'d': 12, 'z': 12, 's': 3.5, 'c': 3.5}[prec] * frac
+
+def gssvx_case(rng, prec, quick, kind='mixed', nmax=None):
+    n = rng.choice([1, 2, 3, 5, 8, 12, 16, 24, 32, 44, 60] if quick else [1, 2, 3, 5, 8, 12, 16, 24, 32, 44, 60, 80, 100])
+    if nmax: n = min(n, nmax)
+    c = {'cmd': 'gssvx', 'seed': rng.randrange(1, 1 << 30)}
+    if kind == 'svd' or (kind == 'mixed' and rng.random() < 0.45):
+        c['fam'] = 'svd'; c['n'] = min(n, 60)
+        c['cond'] = '%.3g' % (10 ** (rng.random() * cond_cap(prec)))
+        c['svmode'] = rng.choice([0, 0, 1, 2])
+    else:
+        c['fam'] = rng.choice(['rand', 'band', 'grid', 'arrow', 'star', 'forest', 'chain'])
+        c['n'] = n
+        if c['fam'] == 'rand': c['dens'] = round(min(1.0, rng.choice([2.5, 4, 6]) / max(n, 1)), 4)
+        if c['fam'] in ('star', 'forest'): c['bs'] = rng.choice([2, 3, 5]); c['ncpl'] = rng.choice([1, 2])
+        if c['fam'] == 'band': c['bl'] = rng.choice([1, 2, 3]); c['bu'] = rng.choice([0, 1, 2])
+    c['vals'] = 'generic'
+    sc = rng.random()
+    if sc < 0.25: c['rscale'] = rng.choice([8, 20, 30])
+    elif sc < 0.5: c['cscale'] = rng.choice([8, 20, 30])
+    elif sc < 0.7: c['rscale'] = rng.choice([8, 20]); c['cscale'] = rng.choice([8, 20])
+    c['trans'] = rng.choice([0, 1, 2]); c['stype'] = rng.choice(['nc', 'nr'])
+    if prec in 'cz' and c['stype'] == 'nr' and c['trans'] == 2 and rng.random() < 0.8:
+        c['stype'] = 'nc'          # complex + row-wise + CONJ is a known finding: keep only a few of those
+    c['equil'] = rng.choice([1, 1, 0])
+    c['nrhs'] = rng.choice([0, 1, 1, 3])
+    if rng.random() < 0.5 and c['nrhs'] > 0:
+        c['factored'] = 1; c['trans2'] = rng.choice([0, 1, 2])
+        if prec in 'cz' and c['stype'] == 'nr' and c['trans2'] == 2 and rng.random() < 0.8: c['trans2'] = 1
+    if rng.random() < 0.3: c['ldpad'] = 2; c['ldxpad'] = rng.choice([0, 3])
+    c['np'] = rng.choice([1, 2, 4, 4])
+    c['ord'] = rng.choice([0, 1, 2, 3])
+    c['u'] = rng.choice([1.0, 1.0, 0.5, 0.1])
+    c['w'] = rng.choice([1, 2, 4, 8]); c['relax'] = rng.choice([1, 2, 4, 6]); c['maxsup'] = max(c['relax'], rng.choice([4, 8, 24]))
+    c['rowblk'] = rng.choice([2, 4, 200]); c['colblk'] = rng.choice([2, 4, 100])
+    if c['np'] > 1 and rng.random() < 0.6:
+        c['pmode'] = rng.choice([1, 2]); c['pert'] = rng.randrange(1, 1 << 30)
+    return c
+
+X_COUNTERS = ('nrhs', 'premised', 'rcond_judged', 'pipe_takes', 'thr_panels')
+
+def cov_equed(ctx, recs):
+    eq = collections.Counter(); combos = set(); fact = 0; nonnat = 0
+    for r in recs.values():
+        res = r.get('result') or {}
+        if 'equed' in res:
+            eq[['none', 'row', 'col', 'both'][res['equed']] if 0 <= res['equed'] <= 3 else 'bad'] += 1
+            combos.add((res.get('trans'), res.get('nr'), res.get('equed'), r['meta']['prec'], r['case'].get('equil')))
+        if 'info2' in res: fact += 1
+    return {'equed_outcomes': dict(eq), 'distinct_trans_storage_equed_prec_fact_combinations': len(combos), 'factored_reuse_calls': fact}
+
+def nontrivial_x(r):
+    res = r.get('result') or {}
+    return res.get('n', 0) >= 3 and res.get('info') in (0, res.get('n', -5) + 1)
+
+def gen_c07(ctx):
+    rng = ctx.rng
+    N = 6000 if ctx.quick else 60000
+    pv = spread(rng, N, weights=(3, 2, 3, 2))
+    return [({'variant': 'plain', 'prec': pv[i]}, gssvx_case(rng, pv[i], ctx.quick)) for i in range(N)]
+
+PROPS['C07'] = dict(gen=gen_c07, relevant=('C07|', 'C11|B-', 'C11|A-', 'C02|reconstruction'), counters=X_COUNTERS, nontrivial=nontrivial_x, batch=25, coverage_extra=cov_equed,
+                    rule='expert-driver calls over trans x storage x {DOFACT, EQUILIBRATE, then FACTORED with a new B and another trans} x badly scaled inputs (powers of two) '
+                    'x 4 precisions x nrhs x nprocs; matrices: sparse families and dense matrices with prescribed singular values; distinct = sha1(case); non-trivial = n>=3 and a solution was returned; '
+                    'oracle: extended-precision componentwise backward error of the returned X for the ORIGINAL system <= 4(n+1)u whenever kappa*growth*n*u <= 1e-3 (kappa from an explicit extended-precision inverse), '
+                    'A_out/B_out equal the inputs scaled by the reported R/C, X padding untouched',
+                    floors={'premised': 500, 'factored_reuse_calls': 200},
+                    assumptions=['outside the premise kappa*growth*n*u <= 1e-3 only structure/NaN checks are applied to X'])
+
+def gen_c12(ctx):
+    rng = ctx.rng
+    N = 5000 if ctx.quick else 50000
+    pv = spread(rng, N, weights=(3, 2, 3, 2))
+    out = []
+    for i in range(N):
+        c = gssvx_case(rng, pv[i], ctx.quick, kind='svd' if rng.random() < 0.75 else 'mixed')
+        c['u'] = rng.choice([1.0, 0.5, 0.1]); c['nrhs'] = rng.choice([0, 1]); c.pop('factored', None)
+        out.append(({'variant': 'plain', 'prec': pv[i]}, c))
+    return out
+
+PROPS['C12'] = dict(gen=gen_c12, relevant=('C12|',), counters=X_COUNTERS, nontrivial=lambda r: bool((r.get('result') or {}).get('rcond_judged')), batch=25, coverage_extra=cov_equed,
+                    rule='expert driver on matrices with prescribed condition number up to 1e-3/eps (geometric / one-small / one-large singular value profiles) and sparse families, both norms (all trans x storage), '
+                    'thresholds u in {1,0.5,0.1}, 4 precisions, 1..4 threads; distinct = sha1(case); non-trivial = the rcond bounds were actually judged (kappa*n*u <= 1e-3); '
+                    'oracle: explicit extended-precision inverse; 1/kappa <= rcond <= 1/(||A||*||inv(A)e/n||) up to delta = min(0.5, 8 n u kappa growth); info = n+1 iff rcond < eps; '
+                    'reciprocal pivot growth recomputed from the returned factors within 8 ulp',
+                    floors={'rcond_judged': 400})
+
+def gen_c13(ctx):
+    rng = ctx.rng
+    N = 5000 if ctx.quick else 50000
+    pv = spread(rng, N, weights=(3, 2, 3, 2))
+    out = []
+    for i in range(N):
+        c = gssvx_case(rng, pv[i], ctx.quick, kind='svd' if rng.random() < 0.6 else 'mixed')
+        if c['fam'] == 'svd':
+            # up to 0.1/eps for the forward-error claim
+            c['cond'] = '%.3g' % (10 ** (rng.random() * {'d': 14.5, 'z': 14.5, 's': 5.5, 'c': 5.5}[pv[i]]))
+        c['nrhs'] = rng.choice([1, 2, 3])
+        out.append(({'variant': 'plain', 'prec': pv[i]}, c))
+    return out
+
+PROPS['C13'] = dict(gen=gen_c13, relevant=('C13|', 'C07|backward-error'), counters=X_COUNTERS, nontrivial=nontrivial_x, batch=25, coverage_extra=cov_equed,
+                    rule='expert driver with nrhs>=1 on matrices with condition number up to 0.1/eps; distinct = sha1(case); non-trivial = n>=3 and a solution was returned; oracle: the reported berr equals the '
+                    'extended-precision componentwise backward error of the returned X within 4(nz+6)u (+2%); berr <= 4(n+1)u under the premise; ||x - x_true||/||x|| <= 40*ferr with x_true from an '
+                    'extended-precision solve with two refinement steps (its own accuracy kappa*4n*2^-64 is allowed for)',
+                    floors={'nrhs': 1000})
+
+# ---- C06 ----
+def sing_case(rng, prec, quick, drv):
+    n = rng.choice([2, 3, 4, 6, 9, 12, 16, 24, 36, 50])
+    c = {'cmd': drv, 'seed': rng.randrange(1, 1 << 30), 'n': n, 'vals': 'generic'}
+    c['fam'] = rng.choice(['band', 'grid', 'arrow', 'star', 'forest', 'chain', 'rand'])
+    if c['fam'] == 'rand': c['dens'] = round(min(1.0, rng.choice([2.5, 4]) / n), 4); c['fam'] = 'band' if n < 4 else 'rand'
+    if c['fam'] in ('star', 'forest'): c['bs'] = rng.choice([2, 3]); c['ncpl'] = 1
+    kind = rng.choice(['zerocol', 'zerocol', 'zerocol', 'zerorow', 'zerorow', 'onesblock', 'onesblock', 'onesblock', 'emptycol', 'emptyrow', 'hallblock', 'hall'])
+    if c['fam'] == 'rand' and kind in ('hallblock', 'onesblock'):
+        c['fam'] = 'band'        # the rest of the matrix must keep a full diagonal
+    c['kind'] = kind
+    if kind in ('zerocol', 'zerorow', 'emptycol', 'emptyrow'):
+        c[kind] = rng.randrange(n); c['expect_singular'] = 1
+    elif kind == 'hallblock':
+        c['hallblock'] = rng.randrange(2, max(3, min(n, 6) + 1)) if n > 2 else 2; c['expect_singular'] = 1; c['generic_singular'] = 1
+    elif kind == 'onesblock':
+        c['onesblock'] = rng.randrange(2, max(3, min(n, 5) + 1)) if n > 2 else 2; c['expect_singular'] = 1
+    else:
+        c['hall'] = rng.randrange(2, max(3, min(n, 5) + 1)) if n > 2 else 2; c['expect_singular'] = 2
+    if kind in ('zerocol', 'emptycol'):
+        c['generic_singular'] = 1
+    c['np'] = rng.choice([1, 2, 3, 4, 8]); c['ord'] = rng.choice([0, 1, 2, 3])
+    c['w'] = rng.choice([1, 2, 3, 8]); c['relax'] = rng.choice([1, 2, 4, 8]); c['maxsup'] = max(c['relax'], rng.choice([4, 8, 24]))
+    c['rowblk'] = rng.choice([2, 200]); c['colblk'] = rng.choice([2, 100])
+    c['nrhs'] = rng.choice([1, 2]); c['stype'] = rng.choice(['nc', 'nr'])
+    if drv == 'gssvx':
+        c['trans'] = rng.choice([0, 1, 2]); c['equil'] = rng.choice([0, 1])
+        if rng.random() < 0.3: c['rscale'] = 10
+    if c['np'] > 1: c['pmode'] = rng.choice([0, 1, 2]); c['pert'] = rng.randrange(1, 1 << 30)
+    return c
+
+def gen_c06(ctx):
+    rng = ctx.rng
+    N = 1600 if ctx.quick else 25000
+    out = []
+    for i in range(N):
+        prec = rng.choice(PRECS)
+        c = sing_case(rng, prec, ctx.quick, rng.choice(['gssv', 'gssvx']))
+        # half under ASan (one case per process so that a crash is attributed), half plain in batches
+        if i % 2 == 0:
+            out.append(({'variant': 'asan', 'prec': prec, 'per_process': True}, c))
+        else:
+            out.append(({'variant': 'plain', 'prec': prec, 'per_process': c['kind'] in ('emptycol', 'emptyrow', 'hall', 'hallblock')}, c))
+    return out
+
+def judge_kind(ctx, r, out):
+    # make crash keys specific to the singular input class
+    return False
+
+def cov_c06(ctx, recs):
+    k = collections.Counter(); rep = collections.Counter()
+    for r in recs.values():
+        k[r['case'].get('kind')] += 1
+        res = r.get('result') or {}
+        if 0 < res.get('info', 0) <= res.get('n', 0): rep[r['case'].get('kind')] += 1
+    return {'singular_kinds': dict(k), 'reported_through_info': dict(rep)}
+
+PROPS['C06'] = dict(gen=gen_c06, relevant=('C06|', 'C07|info-range', 'C01|info-range'), counters=('nrhs', 'first_deficient'), batch=20, coverage_extra=cov_c06,
+                    nontrivial=lambda r: 0 < (r.get('result') or {}).get('info', 0) <= (r.get('result') or {}).get('n', 0),
+                    rule='both drivers (ASan build one case per process + plain build) on singular inputs: stored-zero column/row, structurally empty column/row, isolated Hall violators (h columns meeting only h-1 rows), '
+                    'isolated rank-1 +-1 blocks (exact cancellation whatever the pivot order), non-isolated Hall violators (outcome free, only safety asserted); distinct = sha1(case); non-trivial = 0<info<=n returned; '
+                    'oracle: returns normally, 0<info<=n, B unchanged (simple) / X sentinel intact and B scaled only as reported (expert), perm_c bijection, L/U walkable and destroyable, '
+                    'info = first structurally deficient prefix of A*Pc (augmenting-path matching) for the families where exact zeros are guaranteed in floating point',
+                    floors={},
+                    assumptions=['for structurally rank-deficient patterns whose violator columns receive fill, floating-point elimination need not produce exact zeros: there only crash/corruption freedom is asserted'])
+
+# ---- C11 (driver part; the computational routines are exercised by cmd=equil) ----
+
+# ---- C19 ----
+def gen_c19(ctx):
+    rng = ctx.rng
+    out = []
+    N = 3000 if ctx.quick else 60000
+    for i in range(N):
+        prec = rng.choice(PRECS)
+        sub = rng.choice(['gemv', 'gemv', 'gemv', 'gemm', 'trsv', 'langs', 'convert'])
+        n = rng.choice([1, 2, 3, 5, 8, 13, 20, 33])
+        c = {'cmd': 'kern', 'sub': sub, 'seed': rng.randrange(1, 1 << 30), 'n': n, 'vals': 'generic'}
+        meta = {'variant': 'plain', 'prec': prec}
+        if sub == 'trsv':
+            c['fam'] = rng.choice(['rand', 'band', 'grid', 'arrow', 'forest'])
+            c['n'] = max(n, 3)
+            if c['fam'] == 'rand': c['dens'] = round(min(1.0, 4.0 / c['n']), 4)
+            c['np'] = rng.choice([1, 2, 4]); c['ord'] = rng.choice([0, 1, 2, 3])
+            c['w'] = rng.choice([1, 2, 4, 8]); c['relax'] = rng.choice([1, 2, 4]); c['maxsup'] = max(c['relax'], rng.choice([4, 8, 24]))
+            c['rowblk'] = rng.choice([2, 200]); c['colblk'] = rng.choice([2, 100])
+            if c['np'] > 1: c['pmode'] = 1; c['pert'] = rng.randrange(1, 1 << 30)
+        else:
+            c['fam'] = 'rand'; c['m'] = rng.choice([1, 2, 4, 7, 13, 21]); c['dens'] = rng.choice([0.1, 0.3, 0.7]); c['transversal'] = 0
+            if rng.random() < 0.2: c['emptycol'] = rng.randrange(n)
+            if sub in ('gemv', 'gemm'):
+                c['trans'] = rng.choice(['N', 'T', 'C']); c['alpha'] = rng.randrange(5); c['beta'] = rng.randrange(5)
+                if sub == 'gemv':
+                    # the side the routine scatters to / gathers from gets a non-unit stride only rarely (known finding)
+                    c['incx'] = rng.choice([1, 1, 1, 2, -1, -3]); c['incy'] = rng.choice([1, 1, 1, 2, -1, -3])
+                    if rng.random() < 0.93:
+                        if c['trans'] == 'N': c['incy'] = 1
+                        else: c['incx'] = 1
+                    # the routine implements only unit stride on the side it scatters to / gathers from
+                    bad = (c['trans'] == 'N' and c['incy'] != 1) or (c['trans'] != 'N' and c['incx'] != 1)
+                    if bad and c['alpha'] != 0:
+                        meta['per_process'] = True; c['stride_class'] = 'unsupported'
+                else:
+                    c['ncolb'] = rng.choice([1, 2, 3])
+            if sub == 'convert' or sub == 'langs':
+                if rng.random() < 0.3: c['shufrows'] = 1
+        if rng.random() < 0.15 and sub != 'trsv':
+            meta['variant'] = 'asan'
+        out.append((meta, c))
+    return out
+
+def judge_c19(ctx, r, out):
+    err = r.get('stderr') or ''
+    c = r['case']
+    if r.get('result') is None and 'Not implemented' in err:
+        out.append(('C19|%s-not-implemented|%s' % (c.get('sub'), 'stride' if c.get('sub') == 'gemv' else 'other'),
+                    'aborted with "Not implemented": sub=%s trans=%s incx=%s incy=%s' % (c.get('sub'), c.get('trans'), c.get('incx'), c.get('incy'))))
+        return True
+    return False
+
+def cov_c19(ctx, recs):
+    k = collections.Counter()
+    for r in recs.values():
+        c = r['case']; k['%s/%s' % (c.get('sub'), c.get('trans', '-'))] += 1
+    return {'calls_by_kernel_and_op': dict(k)}
+
+PROPS['C19'] = dict(gen=gen_c19, relevant=('C19|', 'C09|'), counters=('nnz',), batch=40, judge=judge_c19, coverage_extra=cov_c19,
+                    nontrivial=lambda r: (r.get('result') or {}).get('nnz', 0) >= 2 and not (r.get('result') or {}).get('nfail'),
+                    rule='direct calls of sp_?gemv (N/T/C, alpha,beta in {0,1,-1,generic}, strides 1,2,-1,-3), sp_?gemm, sp_?trsv for every (uplo,trans) on L/U from real factorizations '
+                    '(1..4 threads), ?langs (M,1,O,I,F,E), ?CompRow_to_CompCol, ?Copy_CompCol_Matrix, ?Create_CompCol_Permuted on random m x n matrices incl. empty columns; 4 precisions; '
+                    'distinct = sha1(case); non-trivial = nnz>=2 and judged; oracle: dense extended-precision definition with the standard bound gamma(k+3)(|alpha||A||x|+|beta||y|), '
+                    'residual bound gamma(n+2)|T||x| for the solves, (k+4)u for norms (max-norm of a real matrix exact), bitwise multiset equality for conversions, inputs unchanged')
